@@ -30,9 +30,9 @@ ONAMES = PNAMES + ["zz", "fooba", "x-y", "f", "ba", "ke", "sourc", "hel", "1x", 
 
 PLAIN = ["abc", "q", "hello", "a b", "", " ", "x\ty", "\u65e5\u672c", "Barrow"]
 EXPRS = ["1", "1+2", "-5", "[1, 2]", "'x'", "\"o'q\"", "1/0", "None", "os.sep", "sys.maxsize", "math.pi", "(1,)",
-         "{'a': 1}", "0x10", "1e3", "7_", "1+", "True", "foo", "zzzq.w", "len", "int('3')", "x=1", "import os",
+         "{'a': 1}", "0x10", "1e3", "7_", "1+", "True", "foo", "zzzq.w", "len", "int('3')", "v_=1", "import os",
          "(yield)", "5;6", "#c", "2 #c", "\n3", " 4", "raise", "sys.exit(3)", "[][0]", "...", "1 .real", "abc",
-         "zzzq", "{**1}", "1if 1else 2", "0777", "b'x'", "2**10", "'a' 'b'", "(x:=1)", "not 1", "str", "lambda: 0",
+         "zzzq", "{**1}", "1if 1else 2", "0777", "b'x'", "2**10", "'a' 'b'", "(w_:=1)", "not 1", "str", "lambda: 0",
          "__import__('os').sep", "os.path.join('a', 'b')", "undefined_name_1 + 1", "print(end='')"]
 SHELL = ["o'q", "$HOME", "a;b", "*.py", "~/x", "a|b", "`ls`", "--x", "-5", "=", "foo=1", "/usr/bin", "a\\b", "\u00e9",
          "*a", "a&&b", ">out", "-", "--", "-x=1", "--foo", "--foo=1", "?", "??", "a=b=c", "$(id)", "!ls", "%time", "'",
